@@ -40,6 +40,9 @@ func (ev *evaluator) exec(s Stmt) ctl {
 		return ev.execBlock(x)
 	case *DeclStmt:
 		for _, v := range x.Vars {
+			if v.Sym.Kind != SymLocal {
+				continue // declared by a dialect hook as something else (MSL threadgroup local)
+			}
 			slot := ev.frame[v.Sym.Slot : v.Sym.Slot+v.T.nsc]
 			if v.Init != nil {
 				val := ev.eval(v.Init)
@@ -155,7 +158,8 @@ func (ev *evaluator) exec(s Stmt) ctl {
 
 // Slot identifies a resource binding.  GLSL: Class 's' = shader-storage block
 // binding, 'u' = uniform block binding (separate namespaces in GL); Space is
-// unused.
+// unused.  HLSL: Class is the register class of the text ('t' SRV, 'u' UAV,
+// 'b' constant buffer), Index the register number, Space the register space.
 type Slot struct {
 	Class byte
 	Index uint32
@@ -170,6 +174,23 @@ type RunConfig struct {
 	NumWorkgroups [3]uint32
 	StepLimit     int64
 	ReverseOrder  bool // run workgroups and invocations in reverse order
+	// NumWorkgroupsSlot (HLSL): when non-nil and Buffers has no entry for it,
+	// a 12-byte constant buffer holding NumWorkgroups is bound at this slot
+	// (naga's _NagaConstants cbuffer: hlsl.Options.SpecialConstantsBinding).
+	NumWorkgroupsSlot *Slot
+	// LocalSize (MSL): threads per threadgroup.  MSL text does not carry the
+	// workgroup size (it is a dispatch parameter of the Metal API), so the
+	// caller supplies the @workgroup_size of the WGSL entry point; zero
+	// components count as 1.
+	LocalSize [3]uint32
+	// SizesFrom (MSL): how the `_mslBufferSizes` argument is filled when no
+	// buffer is bound to it explicitly: member name ("size3" = WGSL global
+	// variable number 3) -> slot of the buffer whose bound byte length the
+	// member receives (see msl_run.go).
+	SizesFrom map[string]Slot
+	// SizesFromName (MSL): same, but designating the buffer by the name of
+	// the entry-point argument it is bound to (BlockByName binding).
+	SizesFromName map[string]string
 }
 
 // RunResult reports one execution.
@@ -186,6 +207,9 @@ const maxInvocations = 1 << 22
 
 // Run executes the entry point for every invocation of every workgroup.
 func (p *Program) Run(cfg RunConfig) (res *RunResult, err error) {
+	if p.hooks != nil && p.hooks.run != nil {
+		return p.hooks.run(p, cfg)
+	}
 	entry := cfg.Entry
 	if entry == "" {
 		entry = "main"
@@ -288,6 +312,9 @@ func (ev *evaluator) runEntry(fn *Function) {
 		frame[i].P = p
 	}
 	ev.frame = frame
+	if h := ev.sh.prog.hooks; h != nil && h.entry != nil {
+		h.entry(ev, fn)
+	}
 	if c := ev.execBlock(fn.Body); c == ctlDiscard {
 		ev.trap("unsupported: discard")
 	}
